@@ -17,5 +17,7 @@ func TestMain(m *testing.M) {
 		"rapid-generated sequences (<= 25 updates + <= 15 client commands) of connector updates of all 12 kinds built against a remote model: valid ones, ones naming unknown / deleted mailbox or message ids, unknown internal ids, the protected recovery mailbox, name and id clashes, MessagesCreated batches of 0..1200 elements with repeated messages, several mailboxes and IgnoreUnknownMailboxIDs on/off, MessageUpdated with same/new literal and AllowCreate on/off; every content delivered 1-3 times in a row and again after other updates (a NEW update object per delivery); client commands of a second session (APPEND, STORE, COPY, MOVE, EXPUNGE, CREATE, RENAME, DELETE) whose echoes (vconn policy faithful) are delivered 1-2 times; a passive observer selected in a (mostly the affected) mailbox. Oracle after EVERY delivery: acknowledged once within the watchdog (no panic of the update goroutine; never-acknowledged re-checked per DESIGN 1.6), a trailing Noop (and regularly a valid MailboxCreated) succeeds, success/error as the current remote state demands, LIST/LSUB and the fresh view (order, UIDs, flags, bytes, UIDVALIDITY, UIDNEXT) of every mailbox equal the reference model, and when the model does not change (restatement, echo, duplicate, refused, documented no-op) the observer's next NOOP carries no EXISTS/EXPUNGE/FETCH, UIDNEXT and LIST/LSUB are unchanged. Non-trivial: the sequence contains >= 1 update acknowledged with an error followed by >= 1 valid one acknowledged with success, or >= 1 re-delivery; distinct by hash of the delivered sequence.",
 		"message identity through the X-Verif-Marker header",
 		"the connector never states \\Deleted or \\Recent; INTERNALDATE is not judged",
-		"updates that would re-add a message id after its MessageDeleted are labelled ambiguous and not delivered")
+		"updates that would re-add a message id after its MessageDeleted are labelled ambiguous and not delivered",
+		"not judged beyond acknowledgement + nothing-else-changes (labelled lenient): MessageMailboxesUpdated naming an unknown mailbox id (the code drops unknown ids silently), MailboxCreated for an existing id with another name, elements skipped for the protected mailbox, updates on a message after its MessageDeleted",
+		"listed findings steered around: C06-message-updated-into-recovery-mailbox, C06-delete-recreated-mailbox-unique-subscription, C06-message-id-change-misses-pending-exists, C01-own-change-overtakes-queued-updates, C02-stale-update-after-select (sessions are drained before they select or change anything)")
 }
